@@ -309,9 +309,14 @@ package types
 //@   prop C19
 
 //@ // ---- C20: entry points under the no-panic sweep (no functional claim here: they must not panic for any field values) ----
+//@ func (params Params) ValidateParamsMintDenom() (err)
+//@   prop C20
 //@ func (msg MsgUpdateMintersParams) ValidateBasic() (r0)
 //@   requires msg != nil
-//@   prop C20x
+//@   // sequence ids below 2^32-1: `id+1` in the ordering check wraps silently at the top of the range (no panic in Go, but the
+//@   // engine treats machine arithmetic as mathematical and demands the range)
+//@   requires forall i: int :: {msg.Minters[i]} 0 <= i && i < len(msg.Minters) && msg.Minters[i] != nil ==> msg.Minters[i].SequenceId < maxUint32
+//@   prop C20
 //@ func (msg MsgUpdateParams) ValidateBasic() (r0)
 //@   requires msg != nil
 //@   prop C20x
@@ -339,4 +344,50 @@ package types
 //@   trusted
 //@   modifies elems(params.Minters)
 //@   ensures err == nil ==> (forall i: int :: {params.Minters[i]} 0 <= i && i < len(params.Minters) ==> params.Minters[i] != nil)
+
+//@ // ---- what the minter parameter validation establishes (C13; the preconditions of the emission contracts, C02/C10) ----
+//@ // validMinter(m) without the magnitude part (times within range): what Minter.validate checks
+//@ pred validMinterShape(m) = m != nil && m.Config != nil && (isNoMinting(m) || isLinear(m) || isExp(m))
+//@   && (isLinear(m) ==> linCfg(m) != nil && m.EndTime != nil && !linCfg(m).Amount.IsNil() && linCfg(m).Amount >= 0)
+//@   && (isExp(m) ==> expCfg(m) != nil && !expCfg(m).Amount.IsNil() && expCfg(m).Amount > 0
+//@         && !expCfg(m).AmountMultiplier.IsNil() && expCfg(m).AmountMultiplier >= 0 && expCfg(m).StepDuration > 0)
+//@ func (m *LinearMinting) Validate() (err)
+//@   ensures err == nil ==> m != nil && !m.Amount.IsNil() && m.Amount >= 0
+//@   prop C13 C20
+//@ func (m *ExponentialStepMinting) Validate() (err)
+//@   ensures err == nil ==> m != nil && !m.Amount.IsNil() && m.Amount > 0 && !m.AmountMultiplier.IsNil() && m.AmountMultiplier >= 0 && m.StepDuration > 0
+//@   prop C13 C20
+//@ func (m *NoMinting) Validate() (err)
+//@   ensures err == nil
+//@   prop C13 C20
+//@ func (m *Minter) validate() (err)
+//@   requires m != nil
+//@   ensures err == nil ==> validMinterShape(m)
+//@   prop C13 C20
+//@ // the shape ValidateParamsMinters leaves: sorted by contiguous sequence ids starting above 0, every period valid, every period
+//@ // but the last with an end time, end times strictly increasing and after the start time
+//@ pred mintersShape(ms, start) = len(ms) >= 1 && (forall i: int :: {ms[i]} 0 <= i && i < len(ms) ==> ms[i] != nil && validMinterShape(ms[i]))
+//@   && ms[0].SequenceId >= 1 && (forall i: int :: {ms[i]} 0 <= i && i < len(ms) ==> ms[i].SequenceId == ms[0].SequenceId + i)
+//@   && (forall i: int :: {ms[i]} 0 <= i && i < len(ms) - 1 ==> ms[i].EndTime != nil) && ms[len(ms) - 1].EndTime == nil
+//@   && (len(ms) > 1 ==> *ms[0].EndTime > start)
+//@   && (forall i: int :: {ms[i]} 1 <= i && i < len(ms) - 1 ==> *ms[i].EndTime > *ms[i - 1].EndTime)
+//@ func (params Params) ValidateParamsMinters() (err)
+//@   // sequence ids below 2^32-1 (the check `id+1` wraps silently at the top of the range)
+//@   requires forall i: int :: {params.Minters[i]} 0 <= i && i < len(params.Minters) && params.Minters[i] != nil ==> params.Minters[i].SequenceId < maxUint32
+//@   modifies elems(params.Minters)
+//@   ensures [shape] err == nil ==> mintersShape(params.Minters, params.StartTime)
+//@   prop C13 C20
+//@ loop Params.ValidateParamsMinters#1
+//@   invariant 0 <= \i && \i <= len(params.Minters)
+//@   invariant forall j: int :: {params.Minters[j]} 0 <= j && j < \i ==> params.Minters[j] != nil
+//@ loop Params.ValidateParamsMinters#2
+//@   invariant 0 <= \i && \i <= len(params.Minters) && lastPos == len(params.Minters) - 1 && len(params.Minters) >= 1
+//@   invariant forall j: int :: {params.Minters[j]} 0 <= j && j < len(params.Minters) ==> params.Minters[j] != nil && params.Minters[j].SequenceId < maxUint32
+//@   invariant forall j: int, l: int :: {params.Minters[j], params.Minters[l]} 0 <= j && j <= l && l < len(params.Minters) ==> params.Minters[j].SequenceId <= params.Minters[l].SequenceId
+//@   invariant \i == 0 ==> id == 0
+//@   invariant \i > 0 ==> id == params.Minters[\i - 1].SequenceId && params.Minters[0].SequenceId >= 1
+//@   invariant forall j: int :: {params.Minters[j]} 0 <= j && j < \i ==> params.Minters[j].SequenceId == params.Minters[0].SequenceId + j && validMinterShape(params.Minters[j])
+//@   invariant forall j: int :: {params.Minters[j]} 0 <= j && j < \i ==> (j < lastPos ==> params.Minters[j].EndTime != nil) && (j == lastPos ==> params.Minters[j].EndTime == nil)
+//@   invariant \i > 0 && lastPos > 0 ==> *params.Minters[0].EndTime > params.StartTime
+//@   invariant forall j: int :: {params.Minters[j]} 1 <= j && j < \i && j < lastPos ==> *params.Minters[j].EndTime > *params.Minters[j - 1].EndTime
 
